@@ -13,11 +13,6 @@ inductive Item where
   | namedQ (n v : Str)          -- n="v"
   deriving DecidableEq, Repr
 
-/-- write a value between double quotes: `"` becomes `\"` -/
-def esc : Str → Str
-  | [] => []
-  | c :: r => if c = '"' then '\\' :: '"' :: esc r else c :: esc r
-
 def Item.render : Item → Str
   | .bare w => w
   | .quoted v => '"' :: (esc v ++ ['"'])
@@ -70,11 +65,22 @@ def Item.safe : Item → Bool
   | .quoted v => !eqFirst v
   | _ => true
 
-/-- a (name, value) pair that survives `join` + re-parse: its text is one word (the complement is F13:
-    white space, a double quote, an empty value, a leading backtick; an unnamed value with '=') -/
+/-- a (name, value) pair whose text is one word: it is recorded unquoted (non-empty, no white space, no
+    double quote, no leading backtick; unnamed: no '=') -/
 def stable (pr : Str × Str) : Bool :=
   if pr.1 = [] then wordOk pr.2 && pr.2.all (· != '=') else nameOk pr.1 && wordOk pr.2
 
-def toItem (pr : Str × Str) : Item := if pr.1 = [] then .bare pr.2 else .named pr.1 pr.2
+/-- **the exact hypothesis of the round trip** through the recorded string (model.Params + re-parse):
+    the name is empty or well-formed; a value that is recorded QUOTED (empty, white space or '"' inside)
+    does not end with a backslash and, when unnamed, has no '=' before its first white space (F14b);
+    a value that is recorded unquoted is `stable`. -/
+def roundOk (pr : Str × Str) : Bool :=
+  (pr.1 = [] || nameOk pr.1) &&
+  (if needsQuote pr.2 then !endsBS pr.2 && (pr.1 != [] || !eqFirst pr.2) else stable pr)
+
+/-- the item the recorded text of a pair is -/
+def toItem (pr : Str × Str) : Item :=
+  if needsQuote pr.2 then (if pr.1 = [] then .quoted pr.2 else .namedQ pr.1 pr.2)
+  else (if pr.1 = [] then .bare pr.2 else .named pr.1 pr.2)
 
 end BdModel.Params
